@@ -417,6 +417,19 @@ func dump(ctx *app.RequestContext) []string {
 
 // ---------------------------------------------------------------------------
 
+// probeSet: the key store of the context can be written. A lock left behind by an earlier request
+// would block here for ever: bounded, so that the case fails instead of the run hanging.
+func probeSet(ctx *app.RequestContext) string {
+	setDone := make(chan struct{})
+	go func() { ctx.Set("probe-key", 1); close(setDone) }()
+	select {
+	case <-setDone:
+		return "ctx.Set returns = true"
+	case <-time.After(5 * time.Second):
+		return "ctx.Set returns = false (still blocked after 5 s)"
+	}
+}
+
 type rig struct {
 	s        *sconn.Server
 	prog     []call
@@ -465,16 +478,7 @@ func newRig(cfgs ...int) *rig {
 		probe := func(c context.Context, ctx *app.RequestContext) {
 			r.probePtr = ctx
 			r.dumpProb = dump(ctx)
-			// the key store of the context can be written (a lock left behind by an earlier request
-			// would block here for ever: bounded, so that the case fails instead of the run hanging)
-			setDone := make(chan struct{})
-			go func() { ctx.Set("probe-key", 1); close(setDone) }()
-			select {
-			case <-setDone:
-				r.dumpProb = append(r.dumpProb, "ctx.Set returns = true")
-			case <-time.After(5 * time.Second):
-				r.dumpProb = append(r.dumpProb, "ctx.Set returns = false (still blocked after 5 s)")
-			}
+			r.dumpProb = append(r.dumpProb, probeSet(ctx))
 			ctx.SetStatusCode(200)
 			ctx.SetBodyString("probe-ok")
 		}
@@ -923,7 +927,7 @@ func TestC09Concurrent(t *testing.T) {
 			})
 			probe := func(c context.Context, ctx *app.RequestContext) {
 				id := string(ctx.Request.Header.Peek("X-Probe"))
-				d := dump(ctx)
+				d := append(dump(ctx), probeSet(ctx))
 				mu.Lock()
 				dumpsByID[id] = d
 				mu.Unlock()
